@@ -950,8 +950,10 @@ def knot_clean_contract(P, W):
     return Contract(
         "curves.Curve.knot_clean[P=%d,W=%d]" % (P, W), setup=curve_state(P, W),
         params={"self": "obj:BaseCurve", "tolerance": "real", "nodes": "none"}, spec=CSPEC, calls=CLEAN_CALLS,
-        loops={0: dict(invariant=["0 <= it0 and it0 <= len_it0"] + CLEAN_INV, decreases="len_it0 - it0"),
-               1: dict(invariant=CLEAN_INV, decreases="npts(self) + deg(self)")},          # each successful removal lowers npts + degree: the inner loop terminates
+        # loop 0 probes the nodes (float(knot): nothing changes; since the D52 repair), loop 1 walks the nodes, loop 2 removes one knot until it is refused
+        loops={0: dict(invariant=["0 <= it0 and it0 <= len_it0", "unchanged(self)"], decreases="len_it0 - it0"),
+               1: dict(invariant=["0 <= it1 and it1 <= len_it1"] + CLEAN_INV, decreases="len_it1 - it1"),
+               2: dict(invariant=CLEAN_INV, decreases="npts(self) + deg(self)")},          # each successful removal lowers npts + degree: the inner loop terminates
         ensures=["INV(self)", "npts(self) + deg(self) <= old(npts(self)) + old(deg(self))", "tolerance >= 0"] + KIND_KEPT,
         raises={"AssertionError": "tolerance < 0"}, exc_ensures=ATOMIC, canary="npts(self) + deg(self) > old(npts(self)) + old(deg(self))")
 
